@@ -10,7 +10,8 @@
    Dev (as built before the repair):
      "PathFromLastAttr"  the dotted path of a target that is not rooted at a Name is just its attribute names,
                          so `lower(x).upper()` / `'abc'.upper()` look like the whitelisted helper `upper`
-     "GenVarCallable"    a generator variable bound to a callable value passes the namespace-callable test *)
+     "GenVarCallable"    a generator variable bound to a callable value passes the namespace-callable test
+     "GenVarShadowsCtor" a generator variable NAMED like a whitelisted field type passes the whitelist test *)
 EXTENDS Naturals, Sequences, FiniteSets, TLC
 CONSTANT Dev    \* subset of {"PathFromLastAttr", "GenVarCallable"}
 \* ---- name classes in the interpreter namespace (self.data) ----
@@ -19,52 +20,59 @@ Builtins4 == {"str", "any"}                \* str/repr/any/all
 DataCallables == Helpers \cup Builtins4     \* names n with callable(self.data.get(n))
 NotAllowedNames == {"len", "open"}         \* builtins that are not in the namespace
 Roots     == {"net"}                       \* field-type tree roots (DynamicFieldtypeModule)
-CtorPaths == {<<"net", "ipaddress">>}      \* WHITELIST dotted paths
-GenVar    == "f"
+CtorPaths == {<<"net", "ipaddress">>, <<"string">>}      \* WHITELIST paths (dotted and single-segment)
+GenVars   == {"f", "string"}               \* generator variable names: a fresh name, and one that shadows a field type
 \* ---- attribute name classes ----
 PlainMeth == {"strip"}                     \* a method whose name is not a namespace callable
 ShadowMeth == {"upper"}                    \* a method whose name equals a whitelisted helper's name
-Dunder    == {"__class__"}
-Attrs == PlainMeth \cup ShadowMeth \cup Dunder \cup {"s", "ipaddress"}
+Dunder    == {"__class__", "__x"}           \* every name that STARTS with two underscores, whatever it ends with
+Attrs == PlainMeth \cup ShadowMeth \cup Dunder \cup {"s", "ipaddress", "fl"}     \* "fl": a mutable (list) value of the record
 \* ---- target shapes (node.func) ----
 \* base of an attribute chain: Name, call result, constant, parenthesised operator expression
-Bases == {[b |-> "name", n |-> n] : n \in {"r", "net", GenVar} \cup Helpers \cup NotAllowedNames}
+Bases == {[b |-> "name", n |-> n] : n \in {"r", "net"} \cup GenVars \cup Helpers \cup NotAllowedNames}
            \cup {[b |-> "callres"], [b |-> "const"], [b |-> "paren"]}
 Chains == {<<>>} \cup {<<x>> : x \in Attrs} \cup {<<x, y>> : x \in Attrs, y \in Attrs}
 \* call = TRUE: the shape is the target of a call; call = FALSE: it is only read (attribute access without a call)
 Targets == {[base |-> b, chain |-> c, call |-> k] : b \in Bases, c \in Chains, k \in BOOLEAN}
               \cup {[base |-> [b |-> "lambda"], chain |-> <<>>, call |-> k] : k \in BOOLEAN}
               \cup {[base |-> [b |-> "subscript"], chain |-> <<>>, call |-> k] : k \in BOOLEAN}
-InGen == BOOLEAN       \* is the call inside a generator expression whose variable f is bound to a callable canary?
+\* which generator variable (bound to a callable canary) is in scope, if any; "f_op": the enclosing generator
+\* expression is consumed by an operator ('x in (... for f in ...)') instead of any()/all()
+InGen == {"none", "f_op"} \cup GenVars
+VarOf(g) == IF g = "f_op" THEN "f" ELSE g
 \* ---- what the Call branch decides ----
 SyntaxOK(t) == t.base.b \notin {"lambda", "subscript"} /\ ~(t.chain = <<>> /\ t.base.b \in {"callres", "const", "paren"})
 \* resolve_attr_path: attrs (reversed back) + root name if the chain bottoms out in a Name
 PathAsBuilt(t) == (IF t.base.b = "name" THEN <<t.base.n>> ELSE <<>>) \o t.chain
-NameCallable(n, ingen) == n \in DataCallables \/ (n = GenVar /\ ingen)
+NameCallable(n, ingen) == n \in DataCallables \/ (n = VarOf(ingen))
 PolicyAsBuilt(t, ingen) ==
     LET p == PathAsBuilt(t) IN
     \/ (Len(p) = 1 /\ NameCallable(p[1], ingen))       \* callable(self.data.get("name"))  -- dotted strings are never keys
     \/ p \in CtorPaths                                  \* func_name in WHITELIST
 PolicyIntended(t, ingen) ==
     /\ t.base.b = "name"
+    /\ t.base.n # VarOf(ingen)                                   \* a name bound by a generator expression is never a call target
     /\ \/ (t.chain = <<>> /\ t.base.n \in DataCallables)
        \/ (<<t.base.n>> \o t.chain) \in CtorPaths
 Policy(t, ingen) ==
     IF t.base.b # "name" /\ "PathFromLastAttr" \notin Dev THEN FALSE
-    ELSE IF t.base.b = "name" /\ t.base.n = GenVar /\ t.chain = <<>> THEN ("GenVarCallable" \in Dev /\ ingen)
+    ELSE IF t.base.b = "name" /\ t.base.n = VarOf(ingen)
+         THEN \/ ("GenVarCallable" \in Dev /\ t.chain = <<>>)
+              \/ ("GenVarShadowsCtor" \in Dev /\ (<<t.base.n>> \o t.chain) \in CtorPaths)
     ELSE IF "PathFromLastAttr" \in Dev THEN PolicyAsBuilt(t, ingen) ELSE PolicyIntended(t, ingen)
 \* ---- what evaluating node.func then yields (only reached when Policy holds) ----
 \* classes of callable objects
 Resolve(t, ingen) ==
-    IF t.chain = <<>> THEN
+    IF t.base.b = "name" /\ t.base.n = VarOf(ingen) THEN "canary-callable"
+    ELSE IF t.chain = <<>> THEN
         (IF t.base.n \in Helpers THEN "helper" ELSE IF t.base.n \in Builtins4 THEN "builtin4"
-         ELSE IF t.base.n = GenVar /\ ingen THEN "canary-callable" ELSE "other")
+         ELSE IF <<t.base.n>> \in CtorPaths THEN "ctor" ELSE "other")
     ELSE IF t.base.b = "name" /\ (<<t.base.n>> \o t.chain) \in CtorPaths THEN "ctor"
     ELSE "method-of-value"          \* getattr(value, last attr): an arbitrary bound method
 HasDunder(t) == \E i \in DOMAIN t.chain : t.chain[i] \in Dunder
 \* reading (no call): lambdas and subscripts are not part of the language; double-underscore attributes are refused;
 \* a name must exist in the namespace or be a field-type root
-NameKnown(n, ingen) == n \in {"r"} \cup Roots \cup DataCallables \/ (n = GenVar /\ ingen)
+NameKnown(n, ingen) == n \in {"r", "string"} \cup Roots \cup DataCallables \/ (n = VarOf(ingen))
 ReadOutcome(t, ingen) ==
     IF t.base.b \in {"lambda", "subscript"} THEN "refused"
     ELSE IF t.base.b = "name" /\ ~NameKnown(t.base.n, ingen) THEN "refused"
@@ -78,7 +86,8 @@ Outcome(t, ingen) ==
     ELSE Resolve(t, ingen)
 Safe == {"refused", "helper", "builtin4", "ctor", "read"}
 \* syntactic context the call is nested in (the decision must not depend on it)
-Contexts == {"bare", "arg", "operand", "listelt", "genelt", "geniter", "gencond", "kwarg", "not", "boolop"}
+Contexts == {"bare", "arg", "operand", "listelt", "genelt", "geniter", "gencond", "kwarg", "not", "boolop",
+             "add_list", "mult", "bitor"}       \* the value is the LEFT operand of an operator (must never be modified in place)
 VARIABLES t, g, ctx
 Init == t \in Targets /\ g \in InGen /\ ctx \in Contexts
 Next == UNCHANGED <<t, g, ctx>>
